@@ -390,3 +390,18 @@ mod tests {
         }
     }
 }
+
+/// Wrappers exposing the private render helpers to `crate::verif` (feature "verif" only).
+#[cfg(feature = "verif")]
+pub mod verif_hooks {
+    use crate::work::StateCounts;
+    pub fn task_message(message: &str, seconds: usize, max_cols: usize) -> String {
+        super::task_message(message, seconds, max_cols)
+    }
+    pub fn truncate(s: &str, max: usize) -> &str {
+        super::truncate(s, max)
+    }
+    pub fn progress_bar(counts: &StateCounts, bar_size: usize) -> String {
+        super::progress_bar(counts, bar_size)
+    }
+}
